@@ -80,10 +80,27 @@ class Worker:
             self.p.wait()
 
 
+def _sweep_stale_worlds():
+    """Worlds of worker processes that no longer exist (a killed batch cannot clean up after itself): spilsim-w<pid>-*."""
+    import re
+    import shutil
+    from .world import scratch_base
+    base = scratch_base()
+    try:
+        names = os.listdir(base)
+    except OSError:
+        return
+    for n in names:
+        mt = re.match(r"spilsim-w(\d+)-", n)
+        if mt and not os.path.exists("/proc/%s" % mt.group(1)):
+            shutil.rmtree(os.path.join(base, n), ignore_errors=True)
+
+
 class Pool:
     """Workers keyed by hash seed. Requests carry their hash seed; results come back unordered."""
 
     def __init__(self, repo, n_workers, hash_seeds=None, conf_src=None, req_timeout=600):
+        _sweep_stale_worlds()
         self.repo = repo
         self.req_timeout = req_timeout
         hs = list(hash_seeds) if hash_seeds is not None else list(range(N_HASH))
